@@ -76,7 +76,10 @@ def abstractions(label, v):
         return out
     if v.startswith("[") and v.endswith("]"):
         inner = [x.strip() for x in v[1:-1].split(",") if x.strip()]
-        out = ["given", "list", "len>0" if inner else "len=0", f"len={len(inner)}"]
+        out = ["given", "list", "len>0" if inner else "len=0"]
+        if len(inner) >= 2:
+            out.append("len>=2")  # 'several axes / sizes' before the exact count
+        out.append(f"len={len(inner)}")
         if inner and all(_INT.fullmatch(x) for x in inner):
             if "0" in inner:
                 out.append("list:has0")
